@@ -86,15 +86,15 @@ type RefOpt struct {
 }
 
 type RefDHCP struct {
-	Op, Htype, Hlen, Hops              byte
-	Xid                                uint32
-	Secs, Flags                        uint16
-	Ciaddr, Yiaddr, Siaddr, Giaddr     [4]byte
-	Chaddr                             [16]byte
-	Sname                              [64]byte
-	File                               [128]byte
-	Cookie                             uint32
-	Opts                               []RefOpt
+	Op, Htype, Hlen, Hops          byte
+	Xid                            uint32
+	Secs, Flags                    uint16
+	Ciaddr, Yiaddr, Siaddr, Giaddr [4]byte
+	Chaddr                         [16]byte
+	Sname                          [64]byte
+	File                           [128]byte
+	Cookie                         uint32
+	Opts                           []RefOpt
 }
 
 // RefParseDHCP is an RFC 2131/2132 parser: fixed fields at their offsets, then an option area of
